@@ -424,6 +424,7 @@ class Recorder:
         self.raw = None
         self.micro = []
         self.want_pre = False
+        self.last_exc = None
         st.apply_transition = self._wrapped
         self.active = True
 
@@ -446,6 +447,7 @@ class Recorder:
         self.codec = codec
         self.log = []
         self.micro = []
+        self.last_exc = None
         self.count = 0
         self.raw = [] if keep_raw else None
 
@@ -490,6 +492,7 @@ def impl_step(codec, cfg, state, action, rec=None):
         rec.end()
         if isinstance(e, Unsupported):
             raise
+        rec.last_exc = e
         return "(raise %s)" % exc_name(e), None
     lg = rec.end()
     if r.success:
